@@ -558,6 +558,28 @@ ADDENDA5 = {
 for _p, _t in ADDENDA5.items():
     CLAIMS[_p]['text'] = CLAIMS[_p]['text'].rstrip() + _t
 
+ADDENDA6 = {
+    'C01': ' Round 6: one-time Poly1305 key per packet.',
+    'C03': ' Round 6: host key lookup rules (shared C17.R6/R2); algorithms used as negotiated (shared C01.R4).',
+    'C04': ' Round 6: validity window compared with a clock read inside validate(); permitted-CNAME test (shared C18.R8); empty host-list element not registered.',
+    'C05': ' Round 6: auth requests finished one after the other; certificate without principals fails principals= (shared C17.R3); reload_config replaces every per-user setting.',
+    'C06': ' Round 6: KEXINIT refused while receive keys are staged; send_newkeys drops the kex handler; gex REQUEST handlers guarded.',
+    'C07': ' Round 6: X11 setup rewrite keeps trailing bytes.',
+    'C08': ' Round 6: forwarder back-pressure in every state (shared C20.R3); readuntil never blocks while paused.',
+    'C09': ' Round 6: agent closed by the client cleanup; SCP block loop progress (shared C10.R2); SFTP version exchange errors stay in the session (shared C14.R14).',
+    'C10': ' Round 6: packet loops do not swallow decode errors; SFTP init guarded; destination port range; blob decoders convert the same exceptions; READ length bounded.',
+    'C11': ' Round 6: get_hash_prefix is a pure function of the current fields.',
+    'C12': ' Round 6: copy_data argument roles; read size clamped at 0.',
+    'C14': ' Round 6: minimal NAME replies per version; version exchange guarded.',
+    'C15': ' Round 6: unknown extension values skipped; PKCS#8 optional fields.',
+    'C16': ' Round 6: algorithm name compared as read; principals and namespaces case-sensitive.',
+    'C17': ' Round 6: strict networks; unknown curve id is a ValueError.',
+    'C18': ' Round 6: CanonicalizeMaxDots bound and CNAME test; %L token.',
+    'C20': ' Round 6: empty certificate option set still restricts (shared C05.R6); pending open fails with the connection (shared C09.R1); destination connect errors.',
+}
+for _p, _t in ADDENDA6.items():
+    CLAIMS[_p]['text'] = CLAIMS[_p]['text'].rstrip() + _t
+
 PENDING = 'check not built yet in this session (planned, see DESIGN.md section 5)'
 
 NOT_APPLICABLE = {
